@@ -326,12 +326,32 @@ pub fn ops_strategy(n_peers: u8, mix: Mix, max_fragments: usize) -> BoxedStrateg
         ]
     })
     .boxed();
+    // the peer is slow to answer with its WHOAREYOU and slow again to answer the handshake: each delay is
+    // shorter than the request time-out, together they are longer
+    let slow_challenge = (0u8..n, 0u8..n, any::<bool>(), prop_oneof![Just(Dt::TimeoutFrac40), Just(Dt::Ms1)]).prop_map(|(from, to, with_record, extra)| {
+        vec![
+            Op::DeliverAll,
+            Op::Advance(Dt::TimeoutPlus),
+            Op::Advance(Dt::TimeoutPlus),
+            Op::DeliverAll,
+            Op::Submit { from, to, body: Body::Ping, with_record },
+            Op::Advance(Dt::TimeoutFrac40),
+            Op::Advance(Dt::TimeoutFrac40),
+            Op::Deliver(0),
+            Op::AnswerWru { node: to, sel: 0, know: Know::Current },
+            Op::Deliver(0),
+            Op::Advance(Dt::TimeoutFrac40),
+            Op::Advance(extra),
+            Op::DeliverAll,
+        ]
+    })
+    .boxed();
     let frag = match mix {
         Mix::Identity => prop_oneof![18 => single, 12 => attack, 2 => spoof_race, 1 => early_replay].boxed(),
         Mix::Exemptions => prop_oneof![6 => single, 1 => attack].boxed(),
         Mix::Tamper => prop_oneof![30 => single, 6 => exchange, 1 => spoof_race, 1 => old_key_fallback].boxed(),
         Mix::Replay => prop_oneof![30 => single, 6 => exchange, 1 => late_handshake, 1 => early_replay].boxed(),
-        _ => prop_oneof![60 => single, 1 => burst_fail].boxed(),
+        _ => prop_oneof![60 => single, 1 => burst_fail, 2 => slow_challenge].boxed(),
     };
     proptest::collection::vec(frag, 1..max_fragments)
         .prop_map(|v| v.into_iter().flatten().collect())
